@@ -195,4 +195,144 @@ Section Special.
     set (m4 := init_side mo m3') in *. clearbody m4. clear HP2 HP3.
     repeat advS; finS.
   Qed.
+
+  (** ** every activation *)
+  Ltac ap L := first [ apply L; assumption | eapply L; eassumption ].
+
+  Lemma s_step_cmd self c m : chk (KCmd self c) m = true -> SLs (length (heap m)) m (step_cmd K P rec self c m).1.
+  Proof.
+    intros Hc. destruct c; cbn [step_cmd].
+    - ap s_cmd_new.
+    - ap s_cmd_clone.
+    - ap s_cmd_drop.
+    - ap s_cmd_move.
+    - ap s_cmd_mark_alive.
+    - ap s_cmd_collect.
+    - ap s_cmd_downgrade.
+    - ap s_cmd_upgrade.
+    - ap s_cmd_w_new.
+    - ap s_cmd_w_clone.
+    - ap s_cmd_w_drop.
+    - ap s_cmd_try_unwrap.
+    - ap s_cmd_drop_value.
+    - ap s_cmd_fin_again.
+    - ap s_cmd_new_cyclic.
+    - ap s_cmd_register.
+    - ap s_cmd_clean.
+    - ap s_cmd_c_drop.
+    - ap s_cmd_bag.
+    - ap s_cmd_unbag.
+    - ap s_cmd_borrow.
+    - ap s_cmd_unborrow.
+    - ap s_cmd_cfg_auto.
+    - ap s_cmd_cfg_percent.
+    - ap s_cmd_cfg_buffered.
+    - ap s_cmd_arm.
+    - ap s_cmd_panic.
+    - ap s_cmd_obs.
+    - ap s_cmd_w_obs.
+    - ap s_cmd_s_obs.
+  Qed.
+
+  Theorem s_step c m : chk c m = true -> SLs (length (heap m)) m (step K P rec c m).1.
+  Proof.
+    intros Hc. destruct c; cbn [step].
+    - ap s_step_cmd.
+    - ap s_step_script.
+    - ap s_step_store.
+    - ap s_step_drop_cc.
+    - ap s_step_drop_value.
+    - ap s_step_drop_fields.
+    - ap s_step_drop_map_slots.
+    - ap s_step_trigger.
+    - ap s_step_collect_cycles.
+    - ap s_step_collect.
+    - ap s_step_collect_loop.
+    - ap s_step_collect_once.
+    - ap s_step_finalize_list.
+    - ap s_step_drop_list.
+    - ap s_step_unbag.
+    - ap s_step_clean_run.
+  Qed.
 End Special.
+
+(** ** Programs *)
+Section Prog.
+  Context (K : conf) (P : prog).
+  Hypothesis Hconf : k_clean K = true -> k_weak K = true.
+  Hypothesis Hwf : wf_prog P = true.
+
+  Definition PostS (mu : id) (c : call) (m m' : machine) (r : outcome) : Prop := SLs mu (length (heap m)) m m'.
+
+  Lemma mrun_sd mu n : rec_ok (fun _ _ => True) (PostS mu) (mrun K P chk mu n).
+  Proof.
+    apply (mrun_ind K P chk chk_dl mu (fun _ _ => True) (PostS mu)).
+    - intros c m m' r Hm. apply SLs_vac. intros [_ H]. congruence.
+    - intros rec Hrec c m _ Hc. apply (s_step K P mu rec (fun c' m' => Hrec c' m' I) c m Hc).
+    - intros c m _. apply SLs_refl.
+  Qed.
+
+  Definition TopS (mu : id) (m : machine) : Prop := LifeInv.G mu m -> SLinv m.
+
+  Lemma TopS_mexec mu fuel c m : TopS mu m -> TopS mu (mexec_top K P chk mu fuel c m).
+  Proof.
+    intros HT. unfold mexec_top.
+    pose proof (mrun_sd mu fuel (KCmd None c) m I) as HL. unfold PostS in HL.
+    destruct (mrun K P chk mu fuel (KCmd None c) m) as [m1 r]. cbn [fst snd] in *.
+    assert (HL2 : SLs mu (length (heap m)) m
+              match r with ONormal => m1 | OPanic => emit (ERes RPanicked) m1 | OAbort => emit_bad Abort 0 m1 | OFuel => emit_bad Fuel 0 m1 end)
+      by (destruct r; lss).
+    destruct HL2 as (A & B & _). intros HG. apply (B HG), HT, A, HG.
+  Qed.
+  Lemma TopS_mfold mu fuel cmds : forall m, TopS mu m -> TopS mu (fold_left (fun m c => mexec_top K P chk mu fuel c m) cmds m).
+  Proof. induction cmds as [|c cs IH]; intros m HT; [exact HT|]. cbn [fold_left]. apply IH, TopS_mexec, HT. Qed.
+
+  Theorem prog_slinv fuel cmds :
+    let m := fold_left (fun m c => exec_top K P fuel c m) cmds (init K) in
+    clean m = true -> SLinv m.
+  Proof.
+    intros m Hcl. set (mu := length (heap m)).
+    pose proof (mfold_eq K P Hconf Hwf chk chk_dl (chk_ok K) mu fuel cmds Hcl (Nat.le_refl _)) as E.
+    assert (HT0 : TopS mu (init K)).
+    { intros _. split; [exact I|]. split; [intros e o []|]. intros o x Hx. destruct o; discriminate. }
+    pose proof (TopS_mfold mu fuel cmds (init K) HT0) as HT. rewrite E in HT. apply HT.
+    destruct (safe_programs_sinv K P fuel cmds Hconf Hwf Hcl) as (b & Hnb & HI & _). fold m in Hnb, HI.
+    split; [exact Hnb|]. destruct (mem_id mu (dead m)) eqn:Hd; [|exact Hd]. exfalso.
+    destruct (sv_dead _ _ _ _ _ HI mu Hd) as [y Hy]. apply lookup_lt_Some in Hy. unfold mu in Hy. lia.
+  Qed.
+
+  (** the readable form *)
+  Theorem prog_side_events fuel cmds :
+    let m := fold_left (fun m c => exec_top K P fuel c m) cmds (init K) in
+    clean m = true ->
+    (forall o, (cntE (isSA o) (log m) <= 1)%nat /\ (cntE (isSF o) (log m) <= 1)%nat) /\
+    (forall l1 o l2, log m = l1 ++ ESFree o :: l2 -> In (ESAlloc o) l2 /\ cntE (isSF o) l2 = 0%nat) /\
+    (forall l1 o l2, log m = l1 ++ ESAlloc o :: l2 -> cntE (isSA o) l2 = 0%nat) /\
+    (forall o x, get m o = Some x ->
+       ((0 < cntE (isSA o) (log m))%nat <-> o_side x <> None) /\
+       ((0 < cntE (isSF o) (log m))%nat <-> exists s, o_side x = Some s /\ sd_freed s = true) /\
+       (h_side (o_hdr x) = true <-> o_side x <> None)) /\
+    (forall e o, In e (log m) -> evs_id e = Some o -> is_Some (get m o)).
+  Proof.
+    intros m Hcl. destruct (prog_slinv fuel cmds Hcl) as (W & S & HO). fold m in W, S, HO.
+    assert (Hsplit : forall l1 e l2, lwfS (l1 ++ e :: l2) -> evwfS e l2).
+    { induction l1 as [|a l1 IH]; cbn; intros e l2 [H1 H2]; [exact H1 | apply IH, H2]. }
+    assert (Habs : forall (p : event -> bool) o, (forall e, p e = true -> evs_id e = Some o) -> get m o = None -> cntE p (log m) = 0%nat).
+    { intros p o Hp Hn. destruct (cntE p (log m)) eqn:E; [reflexivity|]. exfalso.
+      assert (Hpos : (0 < cntE p (log m))%nat) by lia. apply cntE_pos in Hpos as (e & Hin & He).
+      specialize (S e o Hin (Hp e He)). apply lookup_ge_None in Hn. unfold id in *. lia. }
+    split; [|split; [|split; [|split]]].
+    - intros o. destruct (get m o) as [x|] eqn:Hx.
+      + destruct (HO o x Hx) as [H1 H2 H3]. rewrite H1, H2. destruct (h_side (o_hdr x)), (sside x) as [[|]|]; lia.
+      + rewrite (Habs (isSA o) o), (Habs (isSF o) o); try exact Hx; [lia | |];
+          intros e He; destruct e; try discriminate; cbn in *; apply Nat.eqb_eq in He; congruence.
+    - intros l1 o l2 E. rewrite E in W. exact (Hsplit l1 _ l2 W).
+    - intros l1 o l2 E. rewrite E in W. exact (Hsplit l1 _ l2 W).
+    - intros o x Hx. destruct (HO o x Hx) as [H1 H2 H3]. unfold sside in *. rewrite H1, H2, H3.
+      destruct (o_side x) as [s|]; [destruct (sd_freed s) eqn:Hf|]; repeat split; intros; try lia; try congruence; eauto;
+        try (destruct H as (s0 & [= <-] & Hs0); congruence); try (destruct H as (s0 & Hs0 & _); discriminate).
+    - intros e o Hin Hid. apply lookup_lt_is_Some_2. exact (S e o Hin Hid).
+  Qed.
+End Prog.
+
+Print Assumptions prog_side_events.
